@@ -46,6 +46,7 @@ func runC16(c *Ctx) {
 	c16Small(c)
 	// the description is built from the shared parsed schema without writing to it (C07/ast-immutable)
 	c07ASTImmutable(c)
+	layoutAgreement(c)
 	c.R.Rule("gate", "in every materialised package: calls of introspection.Wrap* and reads of the embedded SDL table outside init are edge-dominated by DisableIntrospection == false", 2*len(c.Gen))
 	for _, g := range c.Gen {
 		n := 0
